@@ -423,6 +423,7 @@ def gen_config(rng, fault_class=None):
         "p_combo": rng.choice([0.35, 0.5, 0.5, 0.7]),
         "p_reparse": rng.choice([0.05, 0.12, 0.12, 0.3]),
         "roundtrip": rng.random() < 0.25,
+        "p_chain": rng.choice([0.2, 0.4, 0.4, 0.85]),
         "p_echo": rng.choice([0.0, 0.15, 0.35, 0.6]),
         "p_borrow": rng.choice([0.0, 0.0, 0.15, 0.4]),
         "battery": rng.choice([0, 0, 4, 8]),
@@ -518,7 +519,7 @@ def gen_script(rng, cfg):
         elif roll < base + cfg["p_combo"] and len(live) >= 2:
             i = rng.choice(live)
             # prefer recent results as the other operand so that chains build up
-            j = live[-1] if rng.random() < 0.4 else rng.choice(live)
+            j = live[-1] if rng.random() < cfg["p_chain"] else rng.choice(live)
             producers.append(len(ops))
             ops.append([rng.choice(["and", "or"]), i, j])
             if cfg["roundtrip"] and rng.random() < 0.6 and len(ops) < n:
